@@ -12,10 +12,10 @@ def main(run: Run) -> int:
 
     run.encodes(er.parse_expression_including_unresolved_subexpressions, er.expand_packages, er.expand_time_conditions, er._replace_sub_coroutines_with_awaited_results, er.PackageExpansionTransformer, er.TimeConditionTransformer)
     thorough = run.tier == "thorough"
-    H.LEVEL = 1 if thorough else 0
+    H.LEVEL = 0  # the 3-leaf combination family (LEVEL 1, 740 expressions) is beyond the budget of either tier
     n = len(H.cases())
     jobs = []
-    g = {"LEVEL": H.LEVEL, "NPOOL": 4 if thorough else 3, "YMAX": 1, "YOCC": 3 if thorough else 2}
+    g = {"LEVEL": H.LEVEL, "NPOOL": 3, "YMAX": 1, "YOCC": 3 if thorough else 2}
     cs = H.cases()
 
     def weight(text, flags):
